@@ -346,8 +346,13 @@ func (st *programState) runSaveStatement(saveStatement parser.SaveStatement) ([]
 
 	balance := st.getCachedBalance(*account, *asset)
 
+	// a balance which is not positive has nothing to reserve (and must not be raised to zero)
+	hasFunds := balance.Sign() == 1
+
 	if amt == nil {
-		balance.Set(big.NewInt(0))
+		if hasFunds {
+			balance.Set(big.NewInt(0))
+		}
 	} else {
 		// Do not allow negative saves
 		if amt.Cmp(big.NewInt(0)) == -1 {
@@ -357,11 +362,13 @@ func (st *programState) runSaveStatement(saveStatement parser.SaveStatement) ([]
 			}
 		}
 
-		// we decrease the balance by "amt"
-		balance.Sub(balance, amt)
-		// without going under 0
-		if balance.Cmp(big.NewInt(0)) == -1 {
-			balance.Set(big.NewInt(0))
+		if hasFunds {
+			// we decrease the balance by "amt"
+			balance.Sub(balance, amt)
+			// without going under 0
+			if balance.Cmp(big.NewInt(0)) == -1 {
+				balance.Set(big.NewInt(0))
+			}
 		}
 	}
 
